@@ -1,5 +1,6 @@
 pub mod ctx;
 pub mod extract;
+pub mod heapmon;
 pub mod gen_syntax;
 pub mod model;
 pub mod real;
@@ -24,6 +25,7 @@ pub fn run_property(ctx: &Ctx, rep: &mut Report) -> Result<(), String> {
         "C07" => props::c07::run(ctx, rep),
         "C11" => props::c11::run(ctx, rep),
         "C13" => props::c13::run(ctx, rep),
+        "C19" => props::c19::run(ctx, rep),
         "C20" => props::c20::run(ctx, rep),
         p => return Err(format!("unknown property {p}")),
     }
@@ -37,6 +39,7 @@ pub fn replay_case(case: &Value, ctx: &Ctx) -> Result<Vec<Violation>, String> {
         "C07" => Ok(props::c07::replay(case)),
         "C11" => Ok(props::c11::replay(case)),
         "C13" => Ok(props::c13::replay(case)),
+        "C19" => Ok(props::c19::replay(case)),
         "C20" => Ok(props::c20::replay(case)),
         p => Err(format!("unknown property {p}")),
     }
